@@ -263,3 +263,7 @@ Definition Spent_within_limit (dur : nat -> Z) (max : Z) (outs : list outcome) (
     export gives up after the FIRST attempt with a max-retry-time error, within limit + 3 s. *)
 Definition slow_attempt_ok (max_ns : Z) (attempts : nat) (err : N) (elapsed_ns : Z) : bool :=
   Nat.eqb attempts 1 && (err =? 2)%N && (elapsed_ns <=? max_ns + 3 * NS_PER_S).
+
+(** A context that expires while the collector keeps failing retry-ably: the export returns an error (within the
+    context's lifetime + 5 s of wall clock), whatever the back-off configuration - InitialInterval 0 included. *)
+Definition ctx_expiry_ok (returned : bool) (err : N) : bool := returned && negb (err =? 0)%N.
